@@ -83,15 +83,19 @@ Section Contract.
     unfold abspath. now rewrite !relsuffix_app, !app_assoc.
   Qed.
 
+  (* the attribute after the operation's notifications: a rename leaves its old name behind *)
+  Definition state_after (last : bytes) (o : op) : bytes :=
+    match o with ORename s _ => abspath root s | _ => last end.
+
   (* the isdir oracle tells the truth about the tree after the operation *)
-  Theorem win_contract_ok : forall (before : fs) (o : op),
+  Theorem win_contract_ok : forall (before : fs) (o : op) (last : bytes),
     op_names_ok o = true -> op_ok before o = true ->
     let after := apply_op before o in
     (forall p, isdir (abspath root p) = fs_isdir after p) ->
-    queue_events isdir walk recursive root (map render_native (win_kernel o))
-    = (map (render root) (win_contract sub recursive after o), false).
+    queue_events isdir walk recursive root last (map render_native (win_kernel o))
+    = (map (render root) (win_contract sub recursive after o), state_after last o, false).
   Proof.
-    intros before o Hnames Hok after Hisdir.
+    intros before o last Hnames Hok after Hisdir.
     unfold queue_events.
     destruct o as [p i|p i|p|p|p|p|s d|s|d k i content]; cbn [win_kernel map batch_go]; unfold render_native; cbn [fst snd];
       cbn [op_names_ok] in Hnames.
@@ -135,6 +139,57 @@ Section Contract.
       rewrite sub_created_abs by assumption. cbn [app orb]. now rewrite app_nil_r.
   Qed.
 End Contract.
+
+(* ---------------------------------------------------------------- arbitrary cuts of the notification stream *)
+Section Cuts.
+  Variable isdir : bytes -> bool.
+  Variable walk : bytes -> tree.
+  Variable recursive : bool.
+  Variable root : bytes.
+  Let bg := batch_go isdir walk recursive root.
+
+  Lemma batch_go_app : forall a b last,
+    bg last (a ++ b) =
+    let '(o1, l1, s1) := bg last a in
+    let '(o2, l2, s2) := bg l1 b in
+    (o1 ++ o2, l2, s1 || s2).
+  Proof.
+    unfold bg. induction a as [|e a IH]; intros b last.
+    - cbn [app batch_go]. destruct (batch_go isdir walk recursive root last b) as [[o2 l2] s2]. reflexivity.
+    - cbn [app batch_go]. destruct (step isdir walk recursive root last e) as [[o1 l1] s1].
+      rewrite IH. destruct (batch_go isdir walk recursive root l1 a) as [[oa la] sa].
+      destruct (batch_go isdir walk recursive root la b) as [[ob lb] sb].
+      now rewrite app_assoc, orb_assoc.
+  Qed.
+
+  (* however a stream of notifications is cut into reads, the calls of queue_events together queue
+     what one call on the whole stream queues, and leave the same state *)
+  Theorem queue_events_cuts : forall reads last,
+    queue_events_seq isdir walk recursive root last reads
+    = queue_events isdir walk recursive root last (concat reads).
+  Proof.
+    unfold queue_events. induction reads as [|es rest IH]; intros last; [reflexivity|].
+    cbn [queue_events_seq concat]. unfold queue_events. fold bg. rewrite batch_go_app. unfold bg.
+    destruct (batch_go isdir walk recursive root last es) as [[o1 l1] s1].
+    rewrite IH. reflexivity.
+  Qed.
+End Cuts.
+
+Theorem win_contract_cut_ok :
+  forall (isdir : bytes -> bool) (walk : bytes -> tree) (sub : path -> tree) (recursive : bool) (root : bytes),
+  root <> [] -> last_is_sep root = false ->
+  (forall p, walk (abspath root p) = sub p) -> (forall p, wf_tree (sub p) = true) ->
+  forall (before : fs) (o : op) (last : bytes) (reads : list (list native)),
+  op_names_ok o = true -> op_ok before o = true ->
+  let after := apply_op before o in
+  (forall p, isdir (abspath root p) = fs_isdir after p) ->
+  concat reads = map render_native (win_kernel o) ->
+  queue_events_seq isdir walk recursive root last reads
+  = (map (render root) (win_contract sub recursive after o), state_after root last o, false).
+Proof.
+  intros isdir walk sub recursive root Hr Hs Hw Hwf before o last reads Hn Hok after Hi Hc.
+  rewrite queue_events_cuts, Hc. now apply win_contract_ok.
+Qed.
 
 (* ---------------------------------------------------------------- replaying the contract *)
 Lemma under_refl s : under s s = true.
@@ -201,17 +256,20 @@ Definition na : bytes := [97].  Definition nb : bytes := [98].
 Lemma win_removed_flavour_refuted :
   let before := [Entry [na] KDir 5] in
   op_ok before (ORmdir [na]) = true /\ fs_isdir before [na] = true /\
-  queue_events (fun _ => false) (fun _ => Node [] []) true r_ (map render_native (win_kernel (ORmdir [na])))
-  = ([Deleted KFile (abspath r_ [na])], false).
+  queue_events (fun _ => false) (fun _ => Node [] []) true r_ [] (map render_native (win_kernel (ORmdir [na])))
+  = ([Deleted KFile (abspath r_ [na])], [], false).
 Proof. vm_compute. repeat split. Qed.
 
-(* F13: the same two notifications delivered by two reads: the pending old name is forgotten *)
+(* F13 (pinned code): the same two notifications delivered by two reads - the pending old name is
+   forgotten; the repaired code (state carried across calls) delivers the moved event with both paths *)
 Lemma win_cut_refuted :
   let ns := map render_native (win_kernel (ORename [na] [nb])) in
-  let q := queue_events (fun _ => false) (fun _ => Node [] []) true r_ in
+  let q := queue_events_pinned (fun _ => false) (fun _ => Node [] []) true r_ in
   q ns = ([Moved KFile (abspath r_ [na]) (abspath r_ [nb]) false], false) /\
-  fst (q (firstn 1 ns)) ++ fst (q (skipn 1 ns)) = [Moved KFile [] (abspath r_ [nb]) false].
-Proof. vm_compute. split; reflexivity. Qed.
+  fst (q (firstn 1 ns)) ++ fst (q (skipn 1 ns)) = [Moved KFile [] (abspath r_ [nb]) false] /\
+  fst (fst (queue_events_seq (fun _ => false) (fun _ => Node [] []) true r_ [] [firstn 1 ns; skipn 1 ns]))
+  = [Moved KFile (abspath r_ [na]) (abspath r_ [nb]) false].
+Proof. vm_compute. repeat split. Qed.
 
 (* ---------------------------------------------------------------- histories, one operation per batch *)
 Section History.
